@@ -1,6 +1,6 @@
 #!/bin/bash
 # runs every registered quick check on the current tree and prints one line per property
-cd /verif
+cd "$(dirname "$0")/.."
 for f in tools/props.d/*.json; do
   p=$(basename $f .json)
   out=$(timeout 3000 ./check $p --tier ${1:-quick} 2>&1)
